@@ -91,6 +91,28 @@ def run(prog, rep, tier='quick'):
                               loc(f.mod, e[1]))
             else:
                 rep.proved('pad', f.qname, c, 'samples first, zeros behind: %s' % SG.show(segs), loc(f.mod, e[1]))
+        # every lag sum runs over all N - k products of the equalised sequences (N = the longer length): a loop whose trip count
+        # depends on the lag symbol has exactly that many passes, whichever input is the shorter one
+        nmax = Aff.sym('max(%s,%s)' % (x.shape[0], y.shape[0]))          # the name the interpreter gives max(len(x), len(y))
+        for e in [e_ for e_ in itp.events if e_[0] == 'range-loop' and e_[5] in here]:
+            lo_, hi_, st_ = e[2], e[3], e[4]
+            if lo_ is None or hi_ is None or st_ != 1 or nmax is None:
+                continue
+            trip = hi_ - lo_
+            ks = [s_ for s_ in trip.t if s_ in Aff.BOUNDS]
+            if len(ks) != 1:
+                continue
+            want_ = nmax - Aff.sym(ks[0])
+            c_ = 'lag sum %s [%s]' % (normalise(e[1].iter)[:40], label)
+            if ('trip', normalise(e[1].iter), label) in seen:
+                continue
+            seen.add(('trip', normalise(e[1].iter), label))
+            if trip == want_:
+                rep.proved('pad', f.qname, c_, '%s products for lag %s' % (trip, ks[0].split('@')[0]), loc(f.mod, e[1]))
+            else:
+                rep.violation('pad', f.qname, c_, 'the sum for lag k runs over %s products, the definition has %s (N = length of the longer '
+                              'sequence): when the second sequence is the shorter one the products beyond its length are dropped although '
+                              'the first sequence is not zero there' % (trip, want_), loc(f.mod, e[1]))
         for var, own, other in (('x', 'x', 'y'), ('y', 'y', 'x')):
             n_pad += 1
             val = caps[-1].get(var)
@@ -152,6 +174,13 @@ def run(prog, rep, tier='quick'):
                             seen.add(k_)
                             rep.violation('conj', c_.func, c_.construct, '%s (first seen for %s): the lag values lose their imaginary '
                                           'part' % (c_.msg, label), loc(c_.mod, c_.node))
+                    for e_ in [e_ for e_ in itp.events if e_[0] == 'self-mirror' and e_[2] and not e_[3] and e_[4].startswith('correlation.')]:
+                        k_ = ('self-mirror', normalise(e_[1]))
+                        if k_ not in seen:
+                            seen.add(k_)
+                            rep.violation('conj', e_[4], normalise(e_[1])[:60], 'one half of the lag sequence is overwritten with the plain mirror '
+                                          'image of the other: for complex data the value at lag -k is conj(r[k]), the conjugate is missing '
+                                          '(first seen for %s)' % label, loc('correlation', e_[1]))
                     if (cplx or cplx_y) and isinstance(r, Num) and r.cplx is False:
                         rep.violation('conj', g.qname, label + ' dtype', 'the correlation of a complex sequence is returned in a real '
                                       'array: the imaginary part of every lag value is discarded', gwhere)
